@@ -34,6 +34,7 @@ type Unit struct {
 	Name      string              `json:"name"`
 	Pkg       string              `json:"pkg"`     // directory below /repo
 	Harness   []string            `json:"harness"` // files (relative to the cfg dir) overlaid into Pkg
+	Extra     map[string]string   `json:"extra_overlays"` // repo-relative target path -> file in the cfg dir (helpers overlaid into other packages)
 	Entries   []string            `json:"entries"`
 	Nop       []string            `json:"nop"`
 	NopFuncs  []string            `json:"nop_funcs"`
@@ -147,6 +148,13 @@ func loadProg(repo, cfgDir string, u *Unit, tier string) (*Prog, error) {
 		overlay[filepath.Join(pkgDir, "zz_verif_"+filepath.Base(h))] = b
 	}
 	overlay[filepath.Join(pkgDir, "zz_verif_prelude.go")] = []byte(preludeSymbolic(pkgName))
+	for target, src := range u.Extra {
+		b, err := os.ReadFile(filepath.Join(cfgDir, src))
+		if err != nil {
+			return nil, err
+		}
+		overlay[filepath.Join(repo, target)] = b
+	}
 	cfg := &packages.Config{
 		Mode: packages.NeedName | packages.NeedFiles | packages.NeedCompiledGoFiles | packages.NeedImports |
 			packages.NeedDeps | packages.NeedTypes | packages.NeedSyntax | packages.NeedTypesInfo | packages.NeedTypesSizes | packages.NeedModule,
